@@ -20,6 +20,8 @@ type GraphBinCase struct {
 	ProjDir string `json:"proj_dir,omitempty"`
 	// Invoke: how spok is pointed at the project (sandbox.Box.Invoke)
 	Invoke string   `json:"invoke,omitempty"`
+	// Outputs: "files" = standard output and error are regular files (sandbox.Box.FileOutputs)
+	Outputs string `json:"outputs,omitempty"`
 	N      int      `json:"n"`
 	Edges  [][2]int `json:"edges"` // i depends on j
 	Via    string   `json:"via"`   // name default clean
@@ -88,6 +90,7 @@ func genGraphBin(t *rapid.T) GraphBinCase {
 	c := genGraphBinBody(t)
 	c.ProjDir = genProjDir(t)
 	c.Invoke = genInvoke(t)
+	c.Outputs = genOutputs(t)
 	return c
 }
 
@@ -146,6 +149,7 @@ func execGraphBin(s *ev.Shard, b *sandbox.Box, c GraphBinCase) *rp.Fail {
 	if err := b.ResetFor(c.ProjDir, c.Invoke); err != nil {
 		return &rp.Fail{Sig: "harness", Msg: err.Error()}
 	}
+	b.FileOutputs = c.Outputs == "files"
 	src := c.source()
 	if err := writeProject(b, b.Proj, map[string]string{"spokfile": src}); err != nil {
 		return &rp.Fail{Sig: "harness", Msg: err.Error()}
